@@ -7,7 +7,9 @@ package main
 // compared with the answer of the same operation run alone afterwards.  Built with -race.
 
 import (
+	"encoding/binary"
 	"fmt"
+	"math/big"
 	"math/rand"
 	"os"
 	"strings"
@@ -24,7 +26,31 @@ func concOps(rng *rand.Rand, n int) []string {
 	gc := "0279be667ef9dcbbac55a06295ce870b07029bfcdb2dce28d959f2815b16f81798"
 	var ops []string
 	for i := 0; i < n; i++ {
-		switch rng.Intn(9) {
+		switch rng.Intn(12) {
+		case 9:
+			ops = append(ops, fmt.Sprintf("bip_derive %s %d,%d,%d -1", rb(32), rng.Uint32(), rng.Uint32(), rng.Uint32()))
+		case 10, 11:
+			// a hardened child of the master whose private key has a leading zero byte (found with plain
+			// HMAC-SHA512, no library call): the derivation takes the 32-byte padding branch
+			seed := unhx(rb(32))
+			ms := h512([]byte("Bitcoin seed"), seed)
+			kpar := new(big.Int).SetBytes(ms[:32])
+			data := make([]byte, 37)
+			copy(data[1:], ms[:32])
+			for j := uint32(0); j < 5000; j++ {
+				idx := 0x80000000 + j
+				binary.BigEndian.PutUint32(data[33:], idx)
+				I := h512(ms[32:], data)
+				c := new(big.Int).SetBytes(I[:32])
+				if c.Sign() == 0 || c.Cmp(curveN) >= 0 {
+					continue
+				}
+				c.Add(c, kpar).Mod(c, curveN)
+				if c.BitLen() <= 248 {
+					ops = append(ops, fmt.Sprintf("bip_derive %s %d,%d -1", hx(seed), idx, rng.Intn(4)))
+					break
+				}
+			}
 		case 0:
 			ops = append(ops, "pubkey "+rb(32))
 		case 1:
